@@ -170,6 +170,18 @@ func Join(tokens []string) string {
 	return b.String()
 }
 
+// JoinTight renders tokens with a blank only where two adjacent tokens would otherwise merge into another token.
+func JoinTight(tokens []string) string {
+	var b strings.Builder
+	for i, t := range tokens {
+		if i > 0 && needGap(tokens[i-1], t) {
+			b.WriteByte(' ')
+		}
+		b.WriteString(t)
+	}
+	return b.String()
+}
+
 // JoinWith is Join with another whitespace string in the places where Join puts a single space.
 func JoinWith(tokens []string, sep string) string {
 	var b strings.Builder
